@@ -877,7 +877,12 @@ func (ts *TestScript) condition(cond string) (bool, error) {
 		return cond == runtime.GOARCH, nil
 	case strings.HasPrefix(cond, "exec:"):
 		prog := cond[len("exec:"):]
-		ok := execCache.Do(prog, func() any {
+		// The lookup uses the script's own environment, so the cache,
+		// which is shared by all scripts in the process, must be keyed
+		// on the variables execpath.Look consults as well as the name.
+		type execKey struct{ prog, path, pathext, plan9path string }
+		key := execKey{prog, ts.Getenv("PATH"), ts.Getenv("PATHEXT"), ts.Getenv("path")}
+		ok := execCache.Do(key, func() any {
 			_, err := execpath.Look(prog, ts.Getenv)
 			return err == nil
 		}).(bool)
